@@ -18,6 +18,7 @@ static LOG: Mutex<Vec<(String, u16, u64, u16, u16, String)>> = Mutex::new(Vec::n
 // per module: sends to do at start: (gate name, msg id, size, at_us)
 static SENDS: Mutex<Vec<(String, String, u16, usize, u64)>> = Mutex::new(Vec::new());
 static IDS: Mutex<Vec<(String, u16)>> = Mutex::new(Vec::new());
+static BOUNCE_GATE: Mutex<String> = Mutex::new(String::new());
 
 struct M { path: String }
 impl Module for M {
@@ -34,6 +35,13 @@ impl Module for M {
         let h = msg.header();
         LOG.lock().unwrap().push((self.path.clone(), h.id, SimTime::now().as_nanos() as u64, h.sender_module_id.0, h.receiver_module_id.0,
             h.last_gate.as_ref().map(|g| g.name().to_string()).unwrap_or_default()));
+        // message 1 is bounced once: the SAME message object (it already carries a receiver id) goes back through the chain as message 3
+        if h.id == 1 {
+            let back = BOUNCE_GATE.lock().unwrap().clone();
+            let mut m = msg;
+            m.header_mut().id = 3;
+            send(m, back.as_str());
+        }
     }
 }
 
@@ -67,6 +75,7 @@ fn main() {
         IDS.lock().unwrap().clear();
         // A = owner of g0 sends id 1 at 0; B = owner of gk sends id 2 at 1 s (every channel is idle again by then)
         *SENDS.lock().unwrap() = vec![(paths[owners[0]].clone(), "g0".into(), 1, size_a, 0), (paths[owners[k]].clone(), format!("g{}", k), 2, size_b, 1_000_000)];
+        *BOUNCE_GATE.lock().unwrap() = format!("g{}", k);
         let mut sim = Sim::new(());
         for p in paths.iter() { sim.node(p.as_str(), M { path: p.clone() }); }
         let gates: Vec<GateRef> = (0..=k).map(|i| sim.gate(paths[owners[i]].as_str(), &format!("g{}", i))).collect();
@@ -106,9 +115,11 @@ fn main() {
         let fwd_delay: u64 = hops.iter().map(|h| h.latency_us * 1000 + busy_ns(h.bitrate, size_a + 64)).sum();
         let bwd_delay: u64 = hops.iter().map(|h| h.latency_us * 1000 + busy_ns(h.bitrate, size_b + 64)).sum();
         let (a, b) = (paths[owners[0]].clone(), paths[owners[k]].clone());
+        let bounce_delay: u64 = hops.iter().map(|h| h.latency_us * 1000 + busy_ns(h.bitrate, size_a + 64)).sum();
         let want = vec![
             (b.clone(), 1u16, fwd_delay, id_of(&a), id_of(&b), format!("g{}", k)),
             (a.clone(), 2u16, 1_000_000_000 + bwd_delay, id_of(&b), id_of(&a), "g0".to_string()),
+            (a.clone(), 3u16, fwd_delay + bounce_delay, id_of(&b), id_of(&a), "g0".to_string()),
         ];
         if got != want { fail("delivery", &scen, format!("(receiver, msg, arrival_ns, sender_id, receiver_id, final_gate) {:?}", want), format!("{:?}", got)); }
     }
